@@ -442,7 +442,8 @@ def SCHEMA_GENERATORS(src, attempt, problems):
             ('GenSerMethods.v', lambda: __import__('translate_methods').gen_ser_methods(src, attempt)),
             ('GenDeMethods.v', lambda: __import__('translate_methods').gen_de_methods(src, attempt)),
             ('GenAccumulator.v', lambda: __import__('translate_methods').gen_accumulator(src, attempt)),
-            ('GenPtrCode.v', lambda: __import__('translate_methods').gen_ptr_code(src, attempt))]
+            ('GenPtrCode.v', lambda: __import__('translate_methods').gen_ptr_code(src, attempt)),
+            ('GenModifiers.v', lambda: __import__('translate_methods').gen_modifiers(src, attempt))]
 
 
 # ----------------------------------------------------------------------------------------
